@@ -24,15 +24,19 @@ static Fields gen(Tape &t) {
   for (size_t k = 0; k < ops.size(); k++) f.seti("mm." + std::to_string(k), t.below(4));
   // allocation failures: for a quarter of the ops the j-th request of that call fails once (whichever manager serves it)
   for (size_t k = 0; k < ops.size(); k++) f.seti("fault." + std::to_string(k), t.chance(3, 4) ? 0 : t.range(1, 6));
+  f.seti("backendextras", t.chance(2, 3) ? 0 : 1 + (int)t.below(7));
   return f;
 }
 
 struct Managers {
   LedgerMM A, B, backend;
   UriMemoryManager completed;
-  Managers() {
+  explicit Managers(int extras = 0) {
     A.tag = "A"; B.tag = "B";
-    backend.mm.calloc = nullptr; backend.mm.realloc = nullptr; backend.mm.reallocarray = nullptr;
+    // the backend of the completed manager may offer more than malloc and free; the completion must not depend on that
+    if (!(extras & 1)) backend.mm.calloc = nullptr;
+    if (!(extras & 2)) backend.mm.realloc = nullptr;
+    if (!(extras & 4)) backend.mm.reallocarray = nullptr;
     uriCompleteMemoryManager(&completed, &backend.mm);
   }
   UriMemoryManager *pick(int sel) { return sel == 1 ? &A.mm : sel == 2 ? &B.mm : sel == 3 ? &completed : nullptr; }
@@ -45,7 +49,7 @@ struct Managers {
 template <class A> static Verdict run(const Fields &f, int *allocCalls, int *objsUsed) {
   using Ch = typename A::Ch;
   std::vector<Op> ops = ops_from_fields(f);
-  Managers M;
+  Managers M((int)f.geti("backendextras"));
   M.backend.tag = "completed-backend";
   LibcLedger &L = libc_ledger();
   L.track = true;
